@@ -9,12 +9,6 @@ import (
 	"sort"
 	"strings"
 
-	"github.com/sboehler/knut/lib/model"
-	"github.com/sboehler/knut/lib/model/registry"
-	"github.com/sboehler/knut/lib/model/transaction"
-	"github.com/sboehler/knut/lib/syntax"
-	"github.com/sboehler/knut/lib/syntax/parser"
-
 	"kverif/cal"
 	"kverif/core"
 	"kverif/gen"
@@ -243,6 +237,9 @@ func (t c10Txn) original() []c10Posting {
 	return res
 }
 
+// errNoLib is returned by the stub of the in-process boundary (build tag nolib).
+var errNoLib = fmt.Errorf("in-process boundary not built")
+
 // ---------------------------------------------------------------- system under test (LIB)
 
 // c10Lib runs the real code on the transaction. viaParser=false assembles the
@@ -252,103 +249,6 @@ func c10Lib(t c10Txn, withAccrual, viaParser bool) (res []c10Gen, text string, e
 		return nil, t.text(withAccrual), fmt.Errorf("panic: %v", pv)
 	}
 	return res, text, err
-}
-
-func c10LibRaw(t c10Txn, withAccrual, viaParser bool) ([]c10Gen, string, error) {
-	reg := registry.New()
-	var ds []model.Directive
-	var text string
-	if viaParser {
-		text = t.text(withAccrual)
-		p := parser.New(text, "x")
-		if err := p.Advance(); err != nil {
-			return nil, text, err
-		}
-		f, err := p.ParseFile()
-		if err != nil {
-			return nil, text, err
-		}
-		for _, d := range f.Directives {
-			m, err := model.ParseDirective(reg, d)
-			if err != nil {
-				return nil, text, err
-			}
-			ds = append(ds, m...)
-		}
-	} else {
-		var b strings.Builder
-		rg := func(s, sep string) syntax.Range {
-			start := b.Len()
-			b.WriteString(s)
-			end := b.Len()
-			b.WriteString(sep)
-			return syntax.Range{Start: start, End: end, Path: "x"}
-		}
-		var st syntax.Transaction
-		if withAccrual {
-			kw := rg("@accrue", " ")
-			st.Addons.Accrual.Interval = syntax.Interval{Range: rg(t.Acc.Interval, " ")}
-			st.Addons.Accrual.Start = syntax.Date{Range: rg(t.Acc.Start.String(), " ")}
-			st.Addons.Accrual.End = syntax.Date{Range: rg(t.Acc.End.String(), " ")}
-			st.Addons.Accrual.Account = syntax.Account{Range: rg(t.Acc.Account, "\n")}
-			st.Addons.Accrual.Range = syntax.Range{Start: kw.Start, End: st.Addons.Accrual.Account.End, Path: "x"}
-			st.Addons.Range = st.Addons.Accrual.Range
-		}
-		st.Date = syntax.Date{Range: rg(t.Date.String(), " ")}
-		q := rg(`"`+t.Desc+`"`, "\n")
-		st.Description = syntax.QuotedString{Range: q, Content: syntax.Range{Start: q.Start + 1, End: q.End - 1, Path: "x"}}
-		for _, bk := range t.Bookings {
-			var sb syntax.Booking
-			sb.Credit = syntax.Account{Range: rg(bk.Credit, " ")}
-			sb.Debit = syntax.Account{Range: rg(bk.Debit, " ")}
-			sb.Quantity = syntax.Decimal{Range: rg(bk.Qty, " ")}
-			sb.Commodity = syntax.Commodity{Range: rg(bk.Com, "\n")}
-			sb.Range = syntax.Range{Start: sb.Credit.Start, End: sb.Commodity.End, Path: "x"}
-			st.Bookings = append(st.Bookings, sb)
-		}
-		text = b.String()
-		// point every range at the finished carrier string
-		fix := func(r *syntax.Range) { r.Text = text }
-		fix(&st.Addons.Range)
-		fix(&st.Addons.Accrual.Range)
-		fix(&st.Addons.Accrual.Interval.Range)
-		fix(&st.Addons.Accrual.Start.Range)
-		fix(&st.Addons.Accrual.End.Range)
-		fix(&st.Addons.Accrual.Account.Range)
-		fix(&st.Date.Range)
-		fix(&st.Description.Range)
-		fix(&st.Description.Content)
-		for i := range st.Bookings {
-			fix(&st.Bookings[i].Range)
-			fix(&st.Bookings[i].Credit.Range)
-			fix(&st.Bookings[i].Debit.Range)
-			fix(&st.Bookings[i].Quantity.Range)
-			fix(&st.Bookings[i].Commodity.Range)
-		}
-		st.Range = syntax.Range{Start: 0, End: len(text), Path: "x", Text: text}
-		m, err := model.ParseDirective(reg, syntax.Directive{Range: st.Range, Directive: st})
-		if err != nil {
-			return nil, text, err
-		}
-		ds = m
-	}
-	var res []c10Gen
-	for _, d := range ds {
-		tr, ok := d.(*transaction.Transaction)
-		if !ok {
-			return nil, text, fmt.Errorf("unexpected directive %T", d)
-		}
-		g := c10Gen{Date: c11Day(tr.Date)}
-		for _, p := range tr.Postings {
-			q, ok := new(big.Rat).SetString(p.Quantity.String())
-			if !ok {
-				return nil, text, fmt.Errorf("unreadable quantity %q", p.Quantity.String())
-			}
-			g.Postings = append(g.Postings, c10Posting{p.Account.Name(), p.Commodity.Name(), q})
-		}
-		res = append(res, g)
-	}
-	return res, text, nil
 }
 
 // ---------------------------------------------------------------- oracle
@@ -594,6 +494,10 @@ func (k *c10) RunCase(c *core.Ctx, i int) {
 		// O: the same text without the @accrue line must come out as the
 		// abstract original (one transaction on the original date)
 		O, otext, err := c10Lib(t, false, viaParser)
+		if err == errNoLib {
+			c.Count("lib_boundary_unavailable", 1)
+			continue
+		}
 		if err != nil {
 			c.Violation(core.Witness{Case: i, Key: "plain-transaction-rejected", Why: "the transaction without @accrue is rejected: " + err.Error(),
 				Files: map[string][]byte{"t.knut": []byte(otext)}})
